@@ -2,6 +2,7 @@ package main
 
 import (
 	"fmt"
+	"go/token"
 	"go/types"
 	"sort"
 	"strings"
@@ -324,80 +325,7 @@ func runC08(c *Ctx) {
 	// ------------------------------------------------------------ V10
 	c.Rule("C08.V10", "ALWAYS-WITH", "the address index lists exactly the validators that have a record: every write of a validator record into the validator trie (updateStakingData(addr, validatorFlag, …)) is accompanied on the same paths by validatorIndex.Add of that address, every deletion (deleteStakingData(addr, validatorFlag)) by validatorIndex.Delete. The in-memory index is re-read from the trie while it is non-empty, which forgets validators created since the last root computation; the Add beside the record write is what puts them back before the index is saved")
 	c.Min(1)
-	{
-		isValFlag := func(v ssa.Value) bool {
-			u, ok := stripConv(v).(*ssa.UnOp)
-			if !ok {
-				return false
-			}
-			g, ok := u.X.(*ssa.Global)
-			return ok && g.Name() == "validatorFlag"
-		}
-		n := 0
-		for _, fn := range w.FuncsIn(statePkg) {
-			if fn.Blocks == nil || strings.HasSuffix(w.fileOf(fn.Pos()), "_test.go") {
-				continue
-			}
-			for _, ci := range callInstrs(fn) {
-				o := calleeObj(ci)
-				if o == nil {
-					continue
-				}
-				var args []ssa.Value
-				want := ""
-				switch {
-				case o.Name() == "updateStakingData" || o.Name() == "deleteStakingData":
-					args = callArgs(ci)
-					if len(args) < 2 || !isValFlag(args[1]) {
-						continue
-					}
-					want = ifelse(o.Name() == "deleteStakingData", "Delete", "Add")
-				case o.Name() == "TryDelete" || o.Name() == "TryUpdate":
-					// the helper inlined: a direct trie write whose key is built from validatorFlag
-					a := callArgs(ci)
-					if len(a) == 0 || !derivesFrom(a[0], isValFlag) {
-						continue
-					}
-					// the address written into the key
-					var addr ssa.Value
-					backward(a[0], func(v ssa.Value) bool {
-						if cc, ok := v.(*ssa.Call); ok && addr == nil {
-							if co := calleeObj(cc); co != nil && co.Name() == "Bytes" && recvName(co) == "Address" {
-								addr = callRecv(cc)
-							}
-						}
-						return addr == nil
-					})
-					if addr == nil {
-						continue
-					}
-					args = []ssa.Value{addr}
-					want = ifelse(o.Name() == "TryDelete", "Delete", "Add")
-				default:
-					continue
-				}
-				n++
-				c.sites++
-				c.sawFunc(fname(fn))
-				var gates []ssa.Instruction
-				for _, cj := range callInstrs(fn) {
-					oj := calleeObj(cj)
-					if oj == nil || oj.Name() != want || recvName(oj) != "ValidatorIndex" {
-						continue
-					}
-					aj := callArgs(cj)
-					if len(aj) > 0 && (stripConv(aj[0]) == stripConv(args[0]) || samePath(aj[0], args[0]) || termOf(aj[0], 4) == termOf(args[0], 4)) {
-						gates = append(gates, cj.(ssa.Instruction))
-					}
-				}
-				ok := alwaysWith(ci.(ssa.Instruction), gates)
-				c.Check(fmt.Sprintf("%s#record-and-index-together-%d", fname(fn), n), ci.Pos(), ok, ifelse(ok, "validatorIndex."+want+" of the same address on the same paths", "a validator record is "+ifelse(want == "Add", "written to", "deleted from")+" the trie without the address index being updated on the same paths: record and statistics are committed but the index does not list the validator (or still lists a removed one), also after commit and reopen"))
-			}
-		}
-		if n == 0 {
-			c.Undecided("core/state#validator-record-writes", 0, "no updateStakingData / deleteStakingData call with validatorFlag found")
-		}
-	}
+	recordAndIndexTogether(c, w)
 
 	// ------------------------------------------------------------ V11
 	c.Rule("C08.V11", "ALWAYS-WITH", "delegator accounts and validators agree on the delegated amounts also after a penalty: in takePenalty every reduction of a delegation entry (the call that rewrites d.Token / d.Stake) is accompanied on the same paths by StateDB.UpdateDelegator for that entry's delegator — Account.DelegationBalance is part of the state root and would otherwise keep the unslashed amount (after a full undelegation the account still claims tokens delegated to nobody)")
@@ -620,6 +548,16 @@ func c08V3(c *Ctx, w *World) {
 		}
 	}
 	c.Check(fname(tc)+"#initial-stake", tc.Pos(), okc, ifelse(okc, "CreateValidator(…, token, YOUToStake(token), …)", "a new validator's stake is not YOUToStake of its deposit"))
+	// ------------------------------------------------------------ V12
+	c.Rule("C08.V12", "TYPESTATE", "a validator's total stays equal to its own plus its delegations' across a revert: an in-place edit of a delegation entry's amounts (staking, core/state) acts on an entry the editor owns — one of a DeepCopy, or one obtained from a getter / constructor that hands out a copy on every return (GetDelegationFrom). An entry of a PartialCopy, or a live entry handed out by the getter, is shared with the record the journal keeps as pre-image: after RevertToSnapshot the totals are the old ones and the entry is the new one (shared with C09.J10)")
+	c.Min(1)
+	frozenEntries(c, w)
+
+	// ------------------------------------------------------------ V13
+	c.Rule("C08.V13", "SAME-VALUE", "UpdateValidator(new, old) compares two different objects: at every call site the replacement and the pre-image can never be one and the same record (their values, followed through phis, share no source). A record is StakeEqual to itself: handing the live record as both — e.g. after editing its status in place on a path that skipped the copy — leaves the statistics unadjusted (offline in the records, online in the totals) and gives the journal a pre-image that already carries the change (shared with C09.J12)")
+	c.Min(10)
+	distinctUpdateArgs(c, w)
+
 }
 
 func c08Variants() []Variant {
@@ -630,5 +568,150 @@ func c08Variants() []Variant {
 		{Name: "self-stake-from-tokens", File: "staking/take_effect_handler.go", Old: "	delta := new(big.Int).Sub(newStake, newVal.SelfStake)\n	newVal.SelfStake.Set(newStake)\n	//update total", New: "	delta := new(big.Int).Sub(newStake, newVal.SelfStake)\n	newVal.SelfStake.Set(newVal.SelfToken)\n	//update total", Rule: "C08.V3", Construct: "teDeposit"},
 		{Name: "skip-delegator-on-delete", File: "core/state/statedb_staking.go", Old: "	st.UpdateDelegator(d, val.MainAddress(), tokenChanged, status == params.Delete)\n", New: "	if status != params.Delete {\n		st.UpdateDelegator(d, val.MainAddress(), tokenChanged, false)\n	}\n", Rule: "C08.V4", Construct: "UpdateDelegation#return"},
 		{Name: "penalty-without-delegator-update", File: "staking/slash.go", Old: "					currentDB.UpdateDelegator(d.Delegator, val.MainAddress(), new(big.Int).Neg(fromDeposit), d.Empty())\n", New: "", Rule: "C08.V11", Construct: "takePenalty"},
+	}
+}
+
+// distinctUpdateArgs (C08.V13 = C09.J12): the two arguments of UpdateValidator never are the same object.
+func distinctUpdateArgs(c *Ctx, w *World) {
+	upd := w.FuncObj(statePkg, "StateDB", "UpdateValidator")
+	leaves := func(v ssa.Value) map[ssa.Value]bool {
+		out := map[ssa.Value]bool{}
+		var walk func(x ssa.Value)
+		seen := map[ssa.Value]bool{}
+		walk = func(x ssa.Value) {
+			x = stripConvNoBind(x)
+			if seen[x] {
+				return
+			}
+			seen[x] = true
+			if ph, ok := x.(*ssa.Phi); ok {
+				for _, e := range ph.Edges {
+					walk(e)
+				}
+				return
+			}
+			// a local variable: the values stored into it
+			if u, ok := x.(*ssa.UnOp); ok && u.Op == token.MUL {
+				if al, isAl := u.X.(*ssa.Alloc); isAl {
+					n := 0
+					for _, r := range *al.Referrers() {
+						if st, isSt := r.(*ssa.Store); isSt && st.Addr == ssa.Value(al) {
+							walk(st.Val)
+							n++
+						}
+					}
+					if n > 0 {
+						return
+					}
+				}
+			}
+			out[x] = true
+		}
+		walk(v)
+		return out
+	}
+	for _, fn := range w.AllFuncs() {
+		if fn.Blocks == nil || fn.Pkg == nil || strings.HasSuffix(w.fileOf(fn.Pos()), "_test.go") {
+			continue
+		}
+		p := fn.Pkg.Pkg.Path()
+		if p != full("staking") && p != full(statePkg) && p != full("core") {
+			continue
+		}
+		for k, ci := range callsTo(fn, upd) {
+			args := callArgs(ci)
+			if len(args) < 2 {
+				continue
+			}
+			c.sites++
+			c.sawFunc(fname(fn))
+			a, b := leaves(args[len(args)-2]), leaves(args[len(args)-1])
+			same := ""
+			for v := range a {
+				if b[v] {
+					same = v.Name()
+					if pos := v.Pos(); pos.IsValid() {
+						same += " (" + w.Pos(pos) + ")"
+					}
+				}
+			}
+			c.Check(fmt.Sprintf("%s#update-%d-distinct-records", fname(fn), k), ci.Pos(), same == "", ifelse(same == "", "replacement and pre-image have no common source", "on some path the replacement and the pre-image are the same record "+same+": StakeEqual(record, itself) is true, so the statistics are not adjusted for what was edited in place, and the journal's pre-image already carries the edit"))
+		}
+	}
+}
+
+// recordAndIndexTogether is shared by C08.V10 and C10.K10.
+func recordAndIndexTogether(c *Ctx, w *World) {
+	isValFlag := func(v ssa.Value) bool {
+		u, ok := stripConv(v).(*ssa.UnOp)
+		if !ok {
+			return false
+		}
+		g, ok := u.X.(*ssa.Global)
+		return ok && g.Name() == "validatorFlag"
+	}
+	n := 0
+	for _, fn := range w.FuncsIn(statePkg) {
+		if fn.Blocks == nil || strings.HasSuffix(w.fileOf(fn.Pos()), "_test.go") {
+			continue
+		}
+		for _, ci := range callInstrs(fn) {
+			o := calleeObj(ci)
+			if o == nil {
+				continue
+			}
+			var args []ssa.Value
+			want := ""
+			switch {
+			case o.Name() == "updateStakingData" || o.Name() == "deleteStakingData":
+				args = callArgs(ci)
+				if len(args) < 2 || !isValFlag(args[1]) {
+					continue
+				}
+				want = ifelse(o.Name() == "deleteStakingData", "Delete", "Add")
+			case o.Name() == "TryDelete" || o.Name() == "TryUpdate":
+				// the helper inlined: a direct trie write whose key is built from validatorFlag
+				a := callArgs(ci)
+				if len(a) == 0 || !derivesFrom(a[0], isValFlag) {
+					continue
+				}
+				// the address written into the key
+				var addr ssa.Value
+				backward(a[0], func(v ssa.Value) bool {
+					if cc, ok := v.(*ssa.Call); ok && addr == nil {
+						if co := calleeObj(cc); co != nil && co.Name() == "Bytes" && recvName(co) == "Address" {
+							addr = callRecv(cc)
+						}
+					}
+					return addr == nil
+				})
+				if addr == nil {
+					continue
+				}
+				args = []ssa.Value{addr}
+				want = ifelse(o.Name() == "TryDelete", "Delete", "Add")
+			default:
+				continue
+			}
+			n++
+			c.sites++
+			c.sawFunc(fname(fn))
+			var gates []ssa.Instruction
+			for _, cj := range callInstrs(fn) {
+				oj := calleeObj(cj)
+				if oj == nil || oj.Name() != want || recvName(oj) != "ValidatorIndex" {
+					continue
+				}
+				aj := callArgs(cj)
+				if len(aj) > 0 && (stripConv(aj[0]) == stripConv(args[0]) || samePath(aj[0], args[0]) || termOf(aj[0], 4) == termOf(args[0], 4)) {
+					gates = append(gates, cj.(ssa.Instruction))
+				}
+			}
+			ok := alwaysWith(ci.(ssa.Instruction), gates)
+			c.Check(fmt.Sprintf("%s#record-and-index-together-%d", fname(fn), n), ci.Pos(), ok, ifelse(ok, "validatorIndex."+want+" of the same address on the same paths", "a validator record is "+ifelse(want == "Add", "written to", "deleted from")+" the trie without the address index being updated on the same paths: record and statistics are committed but the index does not list the validator (or still lists a removed one), also after commit and reopen"))
+		}
+	}
+	if n == 0 {
+		c.Undecided("core/state#validator-record-writes", 0, "no updateStakingData / deleteStakingData call with validatorFlag found")
 	}
 }
